@@ -192,6 +192,9 @@ func VerifHarness_C06_gate() {
 		dim2 := verifConc(ndInt("dimension2", 0, 3))
 		verifAssume(dim2 > dim1)
 		pick(dim2)
+	} else if dim1 <= 1 && ndBool("plus-next-dimension") {
+		// quick: the two pairs that exercise the ORDER of the identity checks (BeginString before CompIDs before SendingTime)
+		pick(dim1 + 1)
 	}
 	admin := ndBool("admin-message")
 	var m *Message
